@@ -302,6 +302,14 @@ def _run_chunk(binary, lines, timeout, tag, env=None):
         else:
             outs.extend(got)
             pos += len(got)
+            if status == "HANG":
+                # the time limit is meant per request, but it was applied to the whole batch: the request that was being
+                # served when the batch ran out of time is only a suspect. Serve it alone; it hangs only if it alone does.
+                single = _run_single(binary, lines[pos], timeout, tag, e)
+                if single is not None:
+                    outs.append(single)
+                    pos += 1
+                    continue
             outs.append("HANG" if status == "HANG" else "CRASH rc=%s" % rc)
             if status == "HANG":
                 hangs += 1
@@ -315,6 +323,16 @@ def _run_chunk(binary, lines, timeout, tag, env=None):
             outs.extend(["ABORTED"] * (len(lines) - pos))
             break
     return outs
+
+
+def _run_single(binary, line, timeout, tag, env):
+    """one request in a process of its own; None if it does not answer within the limit (or the process dies)"""
+    try:
+        p = subprocess.run([binary], input=(line + "\n").encode(), stdout=subprocess.PIPE, stderr=subprocess.DEVNULL, timeout=timeout, env=env)
+    except subprocess.TimeoutExpired:
+        return None
+    got = p.stdout.decode("utf-8", "replace").split("\n")
+    return got[0] if got and got[0] != "" else None
 
 
 def run_lines(binary, lines, timeout=120, jobs=None, tag="run", env=None):
